@@ -58,8 +58,9 @@ def parseString (toks : TokTable) (str : String) : Ty → Outcome Val
         match Tf.mapM' (fun it =>
           match e with
           | .slice _ | .map _ _ | .set _ =>
-            -- a nested collection comes back as a non-pointer value and `.Elem()` panics
-            (match parseScalar "" (.basic .str false) with | _ => Outcome.panic "reflect: call of reflect.Value.Elem on slice Value")
+            -- nested collections re-scan their element text: outside this model (the element's token
+            -- stream is not supplied); the harness does not generate them
+            Outcome.err "nested collection: outside the model"
           | _ => (parseScalar (String.ofList it) e).bind derefVal) items with
         | .ok vs => .ok (.list vs)
         | .err c => .err c
